@@ -27,6 +27,8 @@ pub struct Info {
     pub scripted: Vec<bool>,
     /// transaction id used by a scripted sender (there is no Put to learn it from)
     pub fixed_id: Option<TransactionID>,
+    /// transfers whose Put was fire-and-forget (no id is learnt from a reply)
+    pub forgotten: Vec<usize>,
 }
 pub struct Case {
     pub sc: Scenario,
@@ -57,6 +59,7 @@ impl Case {
             observe_ms: sc.observe_ms,
             scripted: sc.entities.iter().map(|e| e.scripted).collect(),
             fixed_id: None,
+            forgotten: sc.forget_puts.clone(),
         };
         Case { sc, info }
     }
